@@ -80,6 +80,33 @@ Definition cubic_on_sent (c : cubic) (p : pkt T) : cubic :=
   else if fleb F (fofZ F K_CUBIC_MAX_IDLE_TIME) (fsub F (p_time p) (cb_last_ack c)) then cubic_reset c1
   else c1.
 
+(* the two "start of an epoch" blocks of on_packet_acked; returns
+   (_first_slow_start, _W_max, _t_epoch, _cwnd_epoch, _W_est, K, oracle) *)
+Definition cubic_epoch (c : cubic) (now : T) (o : oracle * bool)
+  : bool * Z * T * Z * Z * T * (oracle * bool) :=
+  let cwnd := cb_cwnd c in
+  let mss := cb_mss c in
+  (* exiting slow start without having a loss *)
+  let '(first_ss, wmax, t_epoch, cwnd_epoch, west, K, o) :=
+    if cb_first_ss c && negb (cb_starting c) then
+      let '(K, o) := calc_K cwnd cwnd mss o in
+      (false, cwnd, now, cwnd, cwnd, K, o)
+    else (cb_first_ss c, cb_Wmax c, cb_t_epoch c, cb_cwnd_epoch c, cb_West c, cb_K c, o) in
+  (* start of congestion avoidance after a loss *)
+  if cb_starting c then
+    let '(K, o) := calc_K wmax cwnd mss o in
+    (false, wmax, now, cwnd, cwnd, K, o)
+  else (first_ss, wmax, t_epoch, cwnd_epoch, west, K, o).
+
+(* the final if / elif / else of on_packet_acked (concave and convex regions use the same expression) *)
+Definition cubic_window (cwnd west' wc2 target mss : Z) (anom fanom : bool) : Z * bool * bool :=
+  if wc2 <? west' then (west', anom, fanom)
+  else
+    let '(w, anom) :=
+      trunc_flag F (fadd F (fofZ F cwnd)
+                           (fmul F (fofZ F (target - cwnd)) (fdiv F (fofZ F mss) (fofZ F cwnd)))) anom in
+    (w, anom, if w <? cwnd then true else fanom).
+
 Definition cubic_on_acked (c : cubic) (now : T) (p : pkt T) : cubic :=
   let bif := cb_bif c - p_bytes p in
   let last_ack := p_time p in
@@ -91,19 +118,7 @@ Definition cubic_on_acked (c : cubic) (now : T) (p : pkt T) : cubic :=
   else
     let cwnd := cb_cwnd c in
     let mss := cb_mss c in
-    let o := (cb_oracle c, cb_omiss c) in
-    (* exiting slow start without having a loss *)
-    let '(first_ss, wmax, t_epoch, cwnd_epoch, west, K, o) :=
-      if cb_first_ss c && negb (cb_starting c) then
-        let '(K, o) := calc_K cwnd cwnd mss o in
-        (false, cwnd, now, cwnd, cwnd, K, o)
-      else (cb_first_ss c, cb_Wmax c, cb_t_epoch c, cb_cwnd_epoch c, cb_West c, cb_K c, o) in
-    (* start of congestion avoidance after a loss *)
-    let '(first_ss, t_epoch, cwnd_epoch, west, K, o) :=
-      if cb_starting c then
-        let '(K, o) := calc_K wmax cwnd mss o in
-        (false, now, cwnd, cwnd, K, o)
-      else (first_ss, t_epoch, cwnd_epoch, west, K, o) in
+    let '(first_ss, wmax, t_epoch, cwnd_epoch, west, K, o) := cubic_epoch c now (cb_oracle c, cb_omiss c) in
     let '(west', anom) :=
       trunc_flag F (fadd F (fofZ F west)
                            (fmul F (fofZ F (cb_aif c)) (fdiv F (fofZ F (p_bytes p)) (fofZ F cwnd)))) (cb_anom c) in
@@ -116,14 +131,7 @@ Definition cubic_on_acked (c : cubic) (now : T) (p : pkt T) : cubic :=
            then trunc_flag F (fmul F (fofZ F cwnd) (fconstv F C1_5)) anom
       else (wc1, anom) in
     let '(wc2, o, anom) := w_cubic wmax mss K t o anom in
-    let '(cwnd', anom, fanom) :=
-      if wc2 <? west' then (west', anom, fanom)
-      else
-        (* concave and convex regions use the same expression *)
-        let '(w, anom) :=
-          trunc_flag F (fadd F (fofZ F cwnd)
-                               (fmul F (fofZ F (target - cwnd)) (fdiv F (fofZ F mss) (fofZ F cwnd)))) anom in
-        (w, anom, if w <? cwnd then true else fanom) in
+    let '(cwnd', anom, fanom) := cubic_window cwnd west' wc2 target mss anom fanom in
     mkCubic bif cwnd' (cb_ssthresh c) mss (cb_aif c) (cb_start c) (cb_mon c) (cb_rtt c)
             first_ss false K west' cwnd_epoch t_epoch wmax last_ack (fst o) anom (snd o) fanom.
 
